@@ -196,11 +196,13 @@ func (tr TranslationConfig) translatePackage(pkg *packages.Package) (coq.File, e
 			"could not load package %v:\n%v", pkg.PkgPath,
 			pkgErrors(pkg.Errors))
 	}
-	if _, err := getFfi(pkg); err != nil {
-		return coq.File{}, err
-	}
 	ctx := NewPkgCtx(pkg, tr)
 	files := sortedFiles(pkg.CompiledGoFiles, pkg.Syntax)
+	if _, err := getFfi(pkg); err != nil && len(files) > 0 {
+		return coq.File{}, errors.Wrap(MultipleErrors{
+			ctx.packageError(files[0].Ast, err.Error())},
+			"conversion failed")
+	}
 
 	coqFile := coq.File{
 		PkgPath:   pkg.PkgPath,
